@@ -221,7 +221,7 @@ theorem readDipLine_parts (name t dtxt tok : Str) (k : Kind) (bits : Nat) (dims 
 
 /-- what the DIP round trip asks of a parameter: a DIP name, a non-string type the parser accepts, a value of
     that kind, rectangular without empty levels, a readable unit -/
-def ParamOKDip (p : Param) : Prop :=
+def ParamOKDipNum (p : Param) : Prop :=
   p.name ≠ [] ∧ p.name.all dipNameChar = true ∧ (p.kind, p.bits) ∈ Gen.dipTypes ∧ p.kind ≠ Kind.str ∧
   ValOK p.kind p.value ∧ (∃ sh, rectShape p.value = some sh ∧ 0 ∉ sh) ∧ UnitOK p.unit
 
@@ -268,7 +268,7 @@ theorem dipDims_commaNats (sh : List Nat) (hne : sh ≠ []) (rest : Str) :
     · intro x r e; simp at e; simp [← e.1]
   simp only [List.cons_append, List.append_assoc, List.nil_append, dipDims, hsp, parseCommaNats_commaNats sh hne]
 
-theorem readDipLine_lineDip (p : Param) (h : ParamOKDip p) :
+theorem readDipLine_lineDip_num (p : Param) (h : ParamOKDipNum p) :
     (lineDip p).bind readDipLine = some { p with tags := [] } := by
   obtain ⟨hne, hname, hty, hk, hv, ⟨sh, hr, h0⟩, hu⟩ := h
   obtain ⟨t, ht, hkind, htc⟩ := dipKind_lookup (p.kind, p.bits) hty
@@ -319,7 +319,7 @@ theorem mapM_some_map {α β : Type} (f : α → β) : ∀ l : List α, l.mapM (
   | [] => rfl
   | a :: l => by simp [List.mapM_cons, mapM_some_map f l]
 
-theorem lineDip_clean (p : Param) (h : ParamOKDip p) (l : Str) (hl : lineDip p = some l) :
+theorem lineDip_clean_num (p : Param) (h : ParamOKDipNum p) (l : Str) (hl : lineDip p = some l) :
     clean l = true ∧ l ≠ [] := by
   obtain ⟨hne, hname, hty, hk, hv, ⟨sh, hr, h0⟩, hu⟩ := h
   obtain ⟨t, ht, hkind, htc⟩ := dipKind_lookup (p.kind, p.bits) hty
@@ -376,7 +376,180 @@ theorem lineDip_clean (p : Param) (h : ParamOKDip p) (l : Str) (hl : lineDip p =
       exact fun ch hch => (dipArray_tokCh p.kind hk _ hvk ch hch).2.2
     simp [clean_append, clean_cons, c1, c2, c3, c4, c5]
 
-/-- **whole DIP texts** (boolean and numeric nodes): export, split into lines, read every line = the same
+/-! ## scalar string nodes -/
+
+def dipEscChar (c : Char) : Str := if c = '\'' then ['\\', '\''] else if c = '"' then ['\\', '"'] else [c]
+
+def endsBS : Str → Bool
+  | [] => false
+  | [c] => c = '\\'
+  | _ :: c :: r => endsBS (c :: r)
+
+theorem dipScalar_str (v : Str) : dipScalar false (.s v) = '"' :: (v.flatMap dipEscChar ++ ['"']) := by
+  have : replaceChar '"' ['\\', '"'] (replaceChar '\'' ['\\', '\''] v) = v.flatMap dipEscChar := by
+    unfold replaceChar
+    rw [List.flatMap_assoc]
+    congr 1
+    funext x
+    unfold dipEscChar
+    by_cases h1 : x = '\'' 
+    · subst h1; simp
+    · by_cases h2 : x = '"'
+      · subst h2; simp
+      · simp [h1, h2]
+  simp [dipScalar, this]
+
+theorem dipStrGo_esc : ∀ (v : Str), endsBS v = false →
+    dipStrGo false (v.flatMap dipEscChar ++ ['"']) = some (v, []) ∧
+    (v ≠ [] → dipStrGo true (v.flatMap dipEscChar ++ ['"']) = some ('\\' :: v, []))
+  | [], _ => by simp [dipStrGo]
+  | c :: v, h => by
+    have hv : v = [] ∨ endsBS v = false := by
+      cases v with
+      | nil => exact Or.inl rfl
+      | cons d w => right; simpa [endsBS] using h
+    by_cases h1 : c = '\''
+    · subst h1
+      have ih := dipStrGo_esc v (by rcases hv with rfl | h' <;> simp_all [endsBS])
+      simp [List.flatMap_cons, dipEscChar, dipStrGo, ih.1]
+    · by_cases h2 : c = '"'
+      · subst h2
+        have ih := dipStrGo_esc v (by rcases hv with rfl | h' <;> simp_all [endsBS])
+        simp [List.flatMap_cons, dipEscChar, dipStrGo, ih.1]
+      · by_cases h3 : c = '\\'
+        · subst h3
+          cases v with
+          | nil => simp [endsBS] at h
+          | cons d w =>
+            have ih := dipStrGo_esc (d :: w) (by simpa [endsBS] using h)
+            have ih2 := ih.2 (by simp)
+            have e : ('\\' :: d :: w).flatMap dipEscChar ++ ['"'] = '\\' :: ((d :: w).flatMap dipEscChar ++ ['"']) := by
+              rw [List.flatMap_cons]; simp [dipEscChar]
+            rw [e]
+            simp only [List.flatMap_cons, List.append_assoc] at ih2
+            simp [dipStrGo, ih2]
+        · have ih := dipStrGo_esc v (by rcases hv with rfl | h' <;> simp_all [endsBS])
+          simp [List.flatMap_cons, dipEscChar, dipStrGo, h1, h2, h3, ih.1]
+
+theorem esc_no_dollar (v : Str) (h : ∀ ch ∈ v, ch ≠ '$') : ∀ ch ∈ v.flatMap dipEscChar ++ ['"'], ch ≠ '$' := by
+  intro ch hch
+  simp only [List.mem_append, List.mem_flatMap, List.mem_singleton] at hch
+  rcases hch with ⟨x, hx, hc⟩ | e
+  · unfold dipEscChar at hc
+    split at hc
+    · simp at hc; rcases hc with e | e <;> (subst e; decide)
+    · split at hc
+      · simp at hc; rcases hc with e | e <;> (subst e; decide)
+      · simp at hc; rw [hc]; exact h x hx
+  · subst e; decide
+
+theorem esc_clean (v : Str) (h : clean v = true) : clean (v.flatMap dipEscChar ++ ['"']) = true := by
+  rw [clean_iff] at h ⊢
+  intro ch hch
+  simp only [List.mem_append, List.mem_flatMap, List.mem_singleton] at hch
+  rcases hch with ⟨x, hx, hc⟩ | e
+  · unfold dipEscChar at hc
+    split at hc
+    · simp at hc; rcases hc with e | e <;> (subst e; decide)
+    · split at hc
+      · simp at hc; rcases hc with e | e <;> (subst e; decide)
+      · simp at hc; rw [hc]; exact h x hx
+  · subst e; decide
+
+/-- a scalar string node: any text without `$` and newline that does not end in a backslash -/
+def ParamOKDipStr (p : Param) : Prop :=
+  p.name ≠ [] ∧ p.name.all dipNameChar = true ∧ (p.kind, p.bits) ∈ Gen.dipTypes ∧ p.kind = Kind.str ∧ p.unit = none ∧
+  ∃ v, p.value = .leaf (.s v) ∧ endsBS v = false ∧ (∀ ch ∈ v, ch ≠ '$') ∧ clean v = true
+
+theorem lineDip_form_str (p : Param) (t : Str) (ht : lookupType bDip p.kind p.bits = some t) (v : Str)
+    (hv : p.value = .leaf (.s v)) (hu : p.unit = none) :
+    lineDip p = some (p.name ++ (' ' :: (t ++ (' ' :: '=' :: ' ' :: ('"' :: (v.flatMap dipEscChar ++ ['"'])))))) := by
+  unfold lineDip
+  simp [ht, hv, hu, dipScalar_str]
+
+theorem readDipLine_strline (name t : Str) (bits : Nat) (v : Str)
+    (hne : name ≠ []) (hname : name.all dipNameChar = true)
+    (ht : ∀ ch ∈ t, ch ≠ '[' ∧ ch ≠ ' ') (hkind : dipKind t = some (Kind.str, bits))
+    (hv1 : endsBS v = false) (hv2 : ∀ ch ∈ v, ch ≠ '$') :
+    readDipLine (name ++ (' ' :: (t ++ (' ' :: '=' :: ' ' :: ('"' :: (v.flatMap dipEscChar ++ ['"'])))))) =
+      some ⟨name, .str, bits, .leaf (.s v), none, []⟩ := by
+  have hsp1 : (name ++ (' ' :: (t ++ (' ' :: '=' :: ' ' :: ('"' :: (v.flatMap dipEscChar ++ ['"'])))))).span dipNameChar =
+      (name, ' ' :: (t ++ (' ' :: '=' :: ' ' :: ('"' :: (v.flatMap dipEscChar ++ ['"']))))) := by
+    apply span_stop
+    · exact fun ch hch => List.all_eq_true.mp hname ch hch
+    · intro x r e; simp at e; rw [← e.1]; decide
+  have hsp2 : (t ++ (' ' :: '=' :: ' ' :: ('"' :: (v.flatMap dipEscChar ++ ['"'])))).span (fun c => decide (c ≠ '[' ∧ c ≠ ' ')) =
+      (t, ' ' :: '=' :: ' ' :: ('"' :: (v.flatMap dipEscChar ++ ['"']))) := by
+    apply span_stop
+    · intro ch hch; have := ht ch hch; simp [this.1, this.2]
+    · intro x r e; simp at e; simp [← e.1]
+  have hall : (v.flatMap dipEscChar ++ ['"']).all (fun c => decide (c ≠ '$')) = true := by
+    rw [List.all_eq_true]
+    intro ch hch
+    simpa using esc_no_dollar v hv2 ch hch
+  unfold readDipLine
+  rw [hsp1]
+  simp only [hne, if_false, dropPrefix?, if_true, Option.bind_eq_bind, Option.bind_some]
+  rw [hsp2]
+  have hd : ∀ rest : Str, dipDims (' ' :: rest) = some (none, ' ' :: rest) := fun _ => rfl
+  simp only [hkind, Option.bind_some, hd, dropPrefix?, if_true, dipStrLine, hall, (dipStrGo_esc v hv1).1]
+
+theorem readDipLine_lineDip_str (p : Param) (h : ParamOKDipStr p) :
+    (lineDip p).bind readDipLine = some { p with tags := [] } := by
+  obtain ⟨hne, hname, hty, hk, hu, v, hv, h1, h2, _⟩ := h
+  obtain ⟨t, ht, hkind, htc⟩ := dipKind_lookup (p.kind, p.bits) hty
+  have htc' : ∀ ch ∈ t, ch ≠ '[' ∧ ch ≠ ' ' := by
+    intro ch hch
+    have := List.all_eq_true.mp htc ch hch
+    simp at this
+    exact ⟨this.1, this.2.1⟩
+  rw [lineDip_form_str p t ht v hv hu, Option.bind_some]
+  simp only [hk] at hkind
+  rw [readDipLine_strline p.name t p.bits v hne hname htc' hkind h1 h2]
+  cases p; simp_all
+
+theorem lineDip_clean_str (p : Param) (h : ParamOKDipStr p) (l : Str) (hl : lineDip p = some l) :
+    clean l = true ∧ l ≠ [] := by
+  obtain ⟨hne, hname, hty, hk, hu, v, hv, h1, h2, h3⟩ := h
+  obtain ⟨t, ht, hkind, htc⟩ := dipKind_lookup (p.kind, p.bits) hty
+  rw [lineDip_form_str p t ht v hv hu] at hl
+  injection hl with hl
+  subst hl
+  refine ⟨?_, by
+    intro e
+    have := congrArg List.length e
+    simp at this⟩
+  have c1 : clean p.name = true := by
+    rw [clean_iff]
+    intro ch hch e
+    subst e
+    have := List.all_eq_true.mp hname _ hch
+    revert this; decide
+  have c2 : clean t = true := by
+    rw [clean_iff]
+    intro ch hch
+    have := List.all_eq_true.mp htc ch hch
+    simp at this
+    exact this.2.2
+  have c3 := esc_clean v h3
+  simp [clean_append, clean_cons, c1, c2, c3]
+
+/-- what the DIP round trip asks of a parameter: a boolean / numeric node or a scalar string node -/
+def ParamOKDip (p : Param) : Prop := ParamOKDipNum p ∨ ParamOKDipStr p
+
+theorem readDipLine_lineDip (p : Param) (h : ParamOKDip p) :
+    (lineDip p).bind readDipLine = some { p with tags := [] } := by
+  rcases h with h | h
+  · exact readDipLine_lineDip_num p h
+  · exact readDipLine_lineDip_str p h
+
+theorem lineDip_clean (p : Param) (h : ParamOKDip p) (l : Str) (hl : lineDip p = some l) :
+    clean l = true ∧ l ≠ [] := by
+  rcases h with h | h
+  · exact lineDip_clean_num p h l hl
+  · exact lineDip_clean_str p h l hl
+
+/-- **whole DIP texts** (boolean, numeric and scalar string nodes): export, split into lines, read every line = the same
     parameters in order -/
 theorem readDip_exportDip (data : List Param) (hok : ∀ p ∈ data, ParamOKDip p) :
     (exportDip data).bind readDip = some (expectedDip data) := by
